@@ -513,6 +513,8 @@ class EpochGen:
 
     def _read(self, src):
         g = self.g
+        if self.o.get("nnet_p") and g.coin(self.o["nnet_p"]):
+            return g.nnet()
         k = g.choice(["unary", "binary", "reduce", "misc", "binary"])
         if g.t[src].val.dtype.kind != "f":
             return None
@@ -620,7 +622,7 @@ class C05(Prop):
             cfg["id_policy"] = rng.choice(["lifo", "random"])
             cfg["gc_preempt_p"] = 0.15
         g = Gen(rng, cfg)
-        eg = EpochGen(g, {"weights": w, "max_events": rng.choice([6, 10, 16]), "adv_p": rng.choice([0.2, 0.5]), "end": [("backward", 1)]})
+        eg = EpochGen(g, {"weights": w, "max_events": rng.choice([6, 10, 16]), "adv_p": rng.choice([0.2, 0.5]), "end": [("backward", 1)], "nnet_p": rng.choice([0, 0, 0.15])})
         eg.run(rng.randint(1, 3))
         add_faults(g, g.ev, rng, cfg)
         return {"prop": self.id, "cfg": cfg, "events": g.ev}
@@ -678,6 +680,7 @@ class C01(Prop):
         "against each other; distinct by the sequence of (event kind, outcome class)"
     )
     expected_probes = ["grad.judged_backward", "grad.value_ok", "c01.cross_schedule_ok"]
+    dtype_choices = [["f8"], ["f8"], ["f8", "f4"]]
 
     def generate(self, rng):
         cfg = {
@@ -685,7 +688,7 @@ class C01(Prop):
             "id_policy": "never",
             "max_elems": rng.choice([6, 12]),
             "max_ndim": rng.choice([1, 2, 3]),
-            "dtypes": rng.choice([["f8"], ["f8"], ["f8", "f4"]]),
+            "dtypes": rng.choice(self.dtype_choices),
             "tape": True,
             "exact": rng.random() < 0.5,
             "const_flags": rng.random() < 0.4,
@@ -776,7 +779,7 @@ class C01(Prop):
                         if prod is not None and prod["k"] == "op":
                             evs.insert(i + 1, {"k": "drop", "kind": "T", "h": h, "cycle": False})
             evs.append({"k": "sched", "j": j, "off": j * OFF})
-            evs.append({"k": "backward", "tgt": L + j * OFF})
+            evs.extend(self.final_events(rng, g, L, j, j * OFF))
             evs.extend(self.post_backward(rng, [e["out"] for e in evs if e["k"] in ("leaf", "op") and "out" in e]))
             evs.append({"k": "sched_end", "j": j, "off": j * OFF})
             events.extend(evs)
@@ -789,6 +792,9 @@ class C01(Prop):
 
     def post_backward(self, rng, handles):
         return []
+
+    def final_events(self, rng, g, L, j, off):
+        return [{"k": "backward", "tgt": L + off}]
 
     def _reschedule(self, evs, rng):
         # random linear extension
@@ -819,7 +825,7 @@ class C01(Prop):
         return out
 
     def observers(self, hist):
-        return [O.GradOracle("C01"), O.CrossScheduleOracle()]
+        return [O.GradOracle("C01"), O.CrossScheduleOracle("C01")]
 
     def nontrivial(self, world):
         return world.probes.get("c01.cross_schedule_ok", 0) > 0 and world.probes.get("grad.judged_backward", 0) >= 2
@@ -1188,3 +1194,170 @@ class C10(Prop):
 
 
 register(C10())
+
+
+# ======================================================================================
+# C14 - seeding backward; shape/dtype of stored gradients
+# ======================================================================================
+def rand_seed_ref(g, rng, shape, kind=None):
+    """a seed that broadcasts to `shape` (or, for kind='bad', one that does not)"""
+    kind = kind or rng.choice(["scalar", "0d", "full", "lower", "ones", "arr", "tensor"])
+    shape = tuple(shape)
+    if kind == "bad":
+        c = rng.random()
+        if c < 0.4:
+            bad = (2,) + shape if shape else (2,)  # extra leading dim
+        elif c < 0.8 and shape:
+            bad = shape[:-1] + (shape[-1] + 1,)
+        else:
+            bad = shape + (3,)
+        return {"n": enc_arr(np.ones(bad))}
+    if kind == "scalar":
+        return {"c": float(rng.randint(1, 3))}
+    if kind == "0d":
+        return {"n": enc_arr(np.array(float(rng.randint(1, 3))))}
+    if kind == "lower" and len(shape) > 1:
+        return {"n": enc_arr(g.rand_vals(shape[1:], "f8"))}
+    if kind == "ones" and shape:
+        s1 = tuple(1 if rng.random() < 0.5 else d for d in shape)
+        return {"n": enc_arr(g.rand_vals(s1, "f8"))}
+    if kind == "arr":
+        return {"a": g.arr(shape=shape, dtype=rng.choice(["f8", "f4"]))}
+    if kind == "tensor":
+        return {"t": g.leaf(shape=shape, dtype="f8", constant=rng.choice([None, True]))}
+    return {"n": enc_arr(g.rand_vals(shape, rng.choice(["f8", "f4"])))}
+
+
+class C14(C01):
+    id = "C14"
+    title = "seeding backward; shape/dtype of every stored gradient"
+    rule = (
+        "DAG programs with terminals of any shape (0-d, n-d, size-1 axes) over float16/32/64 leaves and nnet layers; seeds: none, scalar, 0-d, "
+        "full, lower rank, size-1 axes, caller array, tensor, other dtype, and non-broadcastable ones as faults; the program is run twice: "
+        "L.backward(g) and (L*g).sum().backward() must agree with each other and with the tape; after every statement every .grad is None or "
+        "an ndarray of the tensor's shape and dtype.  non-trivial when the two forms were compared or a nnet-layer terminal was back-propagated"
+    )
+    expected_probes = ["c14.checked_after_backward", "c14.bad_seed_rejected", "c01.cross_schedule_ok"]
+    dtype_choices = [["f8"], ["f8", "f4"], ["f4"], ["f2", "f4"], ["f2"]]
+
+    def generate(self, rng):
+        if rng.random() < 0.3:
+            return self._gen_nnet(rng)
+        self._seed = None
+        h = super().generate(rng)
+        h["prop"] = self.id
+        return h
+
+    def _gen_nnet(self, rng):
+        cfg = {"lane": "nnet", "id_policy": "never", "max_elems": 8, "max_ndim": 2, "dtypes": rng.choice([["f8"], ["f4"], ["f8", "f4"]]), "tape": True, "exact": False}
+        g = Gen(rng, cfg)
+        h = g.nnet()
+        if rng.random() < 0.5:
+            h2 = g.op_unary(h) or g.op_binary(h)
+            h = h2 if h2 is not None and rng.random() < 0.7 else h
+        shape = g.t[h].val.shape
+        if rng.random() < 0.3:
+            g.emit({"k": "backward", "tgt": h, "seed": rand_seed_ref(g, rng, shape, "bad"), "fail": 1})
+        seed = None if rng.random() < 0.4 else rand_seed_ref(g, rng, shape)
+        g.backward(h, seed=seed)
+        return {"prop": self.id, "cfg": cfg, "events": g.ev}
+
+    def kinds(self, cfg, rng):
+        return [("unary", 3), ("binary", 6), ("reduce", 2), ("view", 3), ("adv", 1), ("matmul", 1), ("einsum", 1), ("where", 1), ("join", 1), ("seq", 1), ("cumsum", 1)]
+
+    def final_events(self, rng, g, L, j, off):
+        shape = g.t[L].val.shape if L in g.t else ()
+        if j == 0:
+            self._seed = None if rng.random() < 0.25 else rand_seed_ref(g, rng, shape)
+            evs = []
+            if rng.random() < 0.35:
+                evs.append({"k": "backward", "tgt": L + off, "seed": rand_seed_ref(g, rng, shape, "bad"), "fail": 1})
+            ev = {"k": "backward", "tgt": L + off}
+            if self._seed is not None:
+                ev["seed"] = self._seed
+            evs.append(ev)
+            return evs
+        # the equivalent spelling: (L*g).sum().backward()  /  L.sum().backward()
+        evs = []
+        cur = L + off
+        if self._seed is not None:
+            evs.append({"k": "op", "op": "mul", "out": off + 950, "args": [{"t": cur}, self._seed], "p": {}, "spell": "f"})
+            cur = off + 950
+        evs.append({"k": "op", "op": "sum", "out": off + 951, "args": [{"t": cur}], "p": {"axis": None, "keepdims": False}, "spell": "f"})
+        evs.append({"k": "backward", "tgt": off + 951})
+        return evs
+
+    def observers(self, hist):
+        if hist["cfg"].get("lane") == "nnet":
+            return [O.GradShapeOracle()]
+        return [O.GradShapeOracle(), O.GradOracle("C14"), O.CrossScheduleOracle("C14", skip_above=900)]
+
+    def nontrivial(self, world):
+        return world.probes.get("c14.checked_after_backward", 0) > 0
+
+
+register(C14())
+
+
+# ======================================================================================
+# C12 - inputs never modified, gradients never aliased
+# ======================================================================================
+class C12(Prop):
+    id = "C12"
+    title = "inputs never modified, gradients never aliased"
+    rule = (
+        "mixed histories (ops on tensors/arrays/views, out=, in-place, nnet layers) with backward seeded by caller arrays (also one array "
+        "re-used for two terminals), tensors, and arrays taken from .data/.grad; checksums of every caller-owned array and every tensor's data "
+        "around every event; after backward pairwise grad/data aliasing and 'edit one gradient in place, re-checksum everything else'.  "
+        "non-trivial when >=1 aliasing check ran after a seeded or unseeded backward; distinct by (event kind, outcome)"
+    )
+    expected_probes = ["c12.events_checked", "c12.alias_checked"]
+
+    def generate(self, rng):
+        cfg = {
+            "lane": rng.choice(["mixed", "mixed", "nnet"]),
+            "id_policy": "never",
+            "max_elems": rng.choice([6, 12]),
+            "max_ndim": rng.choice([1, 2, 3]),
+            "dtypes": rng.choice([["f8"], ["f8", "f4"]]),
+            "tape": True,
+        }
+        g = Gen(rng, cfg)
+        c8 = PROPS["C08"]
+        w = {"arr": 2, "aview": 1, "wrap": 2, "leaf": 3, "grab": 2, "unary": 3, "binary": 6, "reduce": 2, "view": 4, "adv": 1.5, "out_arr": 1, "setitem": 2, "iop": 1,
+             "ufunc": 2, "backward": 0, "clear": 0.3, "null_grad": 0.3, "drop_t": 1.5, "drop_a": 0.3, "gc": 0.2, "scope": 0, "toggle": 0, "write": 0, "fail": 0, "misc": 2}
+        n_rounds = rng.randint(1, 3)
+        shared_seed = None
+        for _ in range(n_rounds):
+            if cfg["lane"] == "nnet" and rng.random() < 0.8:
+                g.nnet()
+            c8._body(g, rng.randint(4, 16), w, 0)
+            hs = [h for h in g.float_tensors() if not g.t[h].const]
+            if not hs:
+                continue
+            hs.sort(key=lambda h: -g.t[h].depth)
+            tgt = hs[0] if rng.random() < 0.6 else rng.choice(hs)
+            shape = g.t[tgt].val.shape
+            c = rng.random()
+            if c < 0.25:
+                seed = None
+            elif c < 0.5 and shared_seed is not None and g.a.get(shared_seed["a"]) is not None and g.a[shared_seed["a"]].shape == shape:
+                seed = shared_seed  # the same caller array seeds a second terminal
+            else:
+                seed = rand_seed_ref(g, rng, shape, rng.choice(["arr", "arr", "tensor", "full", "scalar", "ones"]))
+                if "a" in seed:
+                    shared_seed = seed
+            g.backward(tgt, seed=seed)
+            if rng.random() < 0.5:
+                hs2 = g.tensors()
+                g.emit({"k": "readgrad", "hs": rng.sample(hs2, min(3, len(hs2)))})
+        return {"prop": self.id, "cfg": cfg, "events": g.ev}
+
+    def observers(self, hist):
+        return [O.NoMutationOracle()]
+
+    def nontrivial(self, world):
+        return world.probes.get("c12.alias_checked", 0) > 0
+
+
+register(C12())
